@@ -130,7 +130,7 @@ def rule_b_any(ctx):
         if not ok:
             R.viol(key, c.where(), "%s is applied to the main table in %s on a path (%s) that never looks at the old table: elements still parked there are ignored"
                    % (c.tname, body.path, " -> ".join("bb%d" % x for x in witness)))
-    R.floor(15, "table-wide operations on MAIN")
+    R.floor(8, "table-wide operations on MAIN")
     return R
 
 
@@ -197,6 +197,11 @@ def slice_calls_deep(ctx, body, loc, operands, depth=0):
     out = list(calls)
     if depth < 3:
         for c in calls:
+            lc = c.local_callee()
+            if lc is not None and lc.kind != "Closure" and not lc.loops():
+                for rb in lc.return_blocks():
+                    ret_op = {"k": "copy", "place": {"local": 0, "proj": [], "ty": lc.locals[0]["ty"]}}
+                    out.extend(slice_calls_deep(ctx, lc, Loc(rb, len(lc.stmts(rb))), [ret_op], depth + 1))
             for cb in c.closure_args():
                 for rb in cb.return_blocks():
                     # slice of the closure's return value
@@ -371,51 +376,110 @@ def rule_b_comp(ctx):
         if name == "next" and ro.composites[adt]["family"] == "iter":
             detail = _check_byref_next(ctx, R, adt, b, key)
         R.inst(fn=b.path, adt=adt, method=name, sides=sorted(sides), verdict=verdict, **detail)
-    R.floor(10, "composite-iterator methods")
+    R.floor(6, "composite-iterator methods")
     return R
 
 
+def _side_of_receiver(ctx, b, c):
+    """IT_MAIN / IT_OLD for the receiver of a call on one of a composite iterator's sides (static role, else provenance)"""
+    from rules_colour import path_role
+    p = c.arg_path(0)
+    r = ctx.role(b, p)
+    if r in ("IT_MAIN", "IT_OLD"):
+        return r
+    s = path_role(ctx, b, p) if p is not None else None
+    return {MAIN: "IT_MAIN", OLD: "IT_OLD"}.get(s)
+
+
+def _sum_componentwise(b, ret_defs_loc, tuple_ops, src_main, src_old):
+    """Does each component of the returned tuple add a value derived from the main source and one derived from the old source?
+    src_* are predicates over (slice locs, arg locals)."""
+    res = {}
+    for i, op in enumerate(tuple_ops):
+        s, args = b.slice_back(ret_defs_loc, [op])
+        has_main, has_old = src_main(s, args), src_old(s, args)
+        adds = []
+        for l in s:
+            if l.i < len(b.stmts(l.bb)):
+                rv = b.stmts(l.bb)[l.i]["rv"]
+                if rv["k"] == "binop" and rv["op"].startswith("Add"):
+                    sa, aa = b.slice_back(l, [rv["a"]])
+                    sb, ab = b.slice_back(l, [rv["b"]])
+                    if (src_main(sa, aa) and src_old(sb, ab)) or (src_main(sb, ab) and src_old(sa, aa)):
+                        adds.append(l)
+        res[i] = (has_main, has_old, len(adds))
+    return res
+
+
 def _check_size_hint(ctx, R, adt, b, key):
-    ro = ctx.roles
-    # direct form: two component size_hint calls
-    calls = ctx.calls(b)
-    main_sh = [c for c in calls if c.method == "size_hint" and ctx.role(b, c.arg_path(0)) == "IT_MAIN"]
-    old_sh = [c for c in calls if c.method == "size_hint" and ctx.role(b, c.arg_path(0)) == "IT_OLD"]
+    calls = [c for c in ctx.calls(b) if not b.is_cleanup(c.loc.bb)]
+    hints = [(bd, c) for bd in [b] + ctx.facts.closures_of(b) for c in ctx.calls(bd) if c.method == "size_hint" and not bd.is_cleanup(c.loc.bb)]
+    main_sh = [c for bd, c in hints if bd is b and _side_of_receiver(ctx, b, c) == "IT_MAIN"]
+    old_sh = [(bd, c) for bd, c in hints if _side_of_receiver(ctx, bd, c) == "IT_OLD"]
     if main_sh and old_sh:
-        res = {}
-        for rb in b.return_blocks():
-            # find the defining aggregate of _0
-            for d in b.defs_reaching(Loc(rb, len(b.stmts(rb))), 0):
-                if d[3] != "assign" or d[4]["rv"]["k"] != "aggregate" or d[4]["rv"].get("agg") != "tuple":
-                    R.viol(key + ":shape", b.where(d[0]), "size_hint result is not built as a (lower, upper) tuple: cannot establish component-wise sum (unproven)")
-                    continue
-                for i, op in enumerate(d[4]["rv"]["ops"]):
-                    s, _ = b.slice_back(d[0], [op])
-                    has_main = any(l == c.loc for l in s for c in main_sh)
-                    has_old = any(l == c.loc for l in s for c in old_sh)
-                    adds = []
-                    for l in s:
-                        if l.i < len(b.stmts(l.bb)):
-                            rv = b.stmts(l.bb)[l.i]["rv"]
-                            if rv["k"] == "binop" and rv["op"].startswith("Add"):
-                                sa, _ = b.slice_back(l, [rv["a"]])
-                                sb, _ = b.slice_back(l, [rv["b"]])
-                                am = any(x == c.loc for x in sa for c in main_sh)
-                                bo = any(x == c.loc for x in sb for c in old_sh)
-                                bm = any(x == c.loc for x in sb for c in main_sh)
-                                ao = any(x == c.loc for x in sa for c in old_sh)
-                                if (am and bo) or (bm and ao):
-                                    adds.append(l)
-                    res["component%d" % i] = "main+old" if (has_main and has_old and adds) else "NOT-SUM"
-                    if not (has_main and has_old and adds):
-                        R.viol(key + ":component%d" % i, b.where(d[0]), "component %d of %s's size_hint is not the sum of the main-side and old-side hints "
-                               "(depends on main: %s, on old: %s, additions combining both: %d)" % (i, adt, has_main, has_old, len(adds)))
-        return res
+        # (1) summed in this body
+        if all(bd is b for bd, _ in old_sh):
+            res = {}
+            bad = False
+            for rb in b.return_blocks():
+                for d in b.defs_reaching(Loc(rb, len(b.stmts(rb))), 0):
+                    if d[3] != "assign" or d[4]["rv"]["k"] != "aggregate" or d[4]["rv"].get("agg") != "tuple":
+                        continue
+                    r_ = _sum_componentwise(b, d[0], d[4]["rv"]["ops"],
+                                            lambda s, a: any(c.loc in s for c in main_sh),
+                                            lambda s, a: any(c.loc in s for _, c in old_sh))
+                    for i, (hm, ho, na) in r_.items():
+                        res["component%d" % i] = "main+old" if (hm and ho and na) else "NOT-SUM"
+                        if not (hm and ho and na):
+                            bad = True
+                            R.viol(key + ":component%d" % i, b.where(d[0]), "component %d of %s's size_hint is not the sum of the main-side and old-side hints "
+                                   "(depends on main: %s, on old: %s, additions combining both: %d)" % (i, adt, hm, ho, na))
+            if res:
+                return res
+        # (2) both hints handed to a helper that sums them component-wise, whose result is returned
+        for c in calls:
+            lc = c.local_callee()
+            if lc is None or lc.kind == "Closure" or not (c.dest and c.dest["local"] == 0 and not c.dest["proj"]):
+                continue
+            mi, oi = None, None
+            for i, a in enumerate(c.args):
+                cs = slice_calls_deep(ctx, b, c.loc, [a])
+                if any(x.loc == m.loc and x.body is b for x in cs for m in main_sh):
+                    mi = i
+                if any(x.loc == o.loc and x.body is bd for x in cs for bd, o in old_sh):
+                    oi = i
+            if mi is None or oi is None or mi == oi:
+                continue
+            res = {"summed_by": lc.path}
+            found = False
+            from rules_typestate import option_test_edges, N as N__
+            absent = {e for e, v in option_test_edges(ctx, lc, lambda p_, oi=oi: p_.root == oi + 1 and not p_.fields(), ignore_debug=False).items() if v == N__}
+            for rb in lc.return_blocks():
+                for d in lc.defs_reaching(Loc(rb, len(lc.stmts(rb))), 0):
+                    if d[3] != "assign" or d[4]["rv"]["k"] != "aggregate" or d[4]["rv"].get("agg") != "tuple":
+                        continue
+                    if any((e[1] == d[0].bb or e[1] in lc.dom().get(d[0].bb, set())) and lc.preds(e[1], True) == [e[0]] for e in absent):
+                        # old side absent on this path: the hint is the main side's own
+                        for i_, op_ in enumerate(d[4]["rv"]["ops"]):
+                            s_, a_ = lc.slice_back(d[0], [op_])
+                            if (mi + 1) not in a_:
+                                R.viol(key + ":component%d:absent" % i_, lc.where(d[0]), "with the old side absent, component %d of the hint does not come from the main side" % i_)
+                        found = True
+                        continue
+                    found = True
+                    r_ = _sum_componentwise(lc, d[0], d[4]["rv"]["ops"], lambda s, a: (mi + 1) in a, lambda s, a: (oi + 1) in a)
+                    for i, (hm, ho, na) in r_.items():
+                        res["component%d" % i] = "main+old" if (hm and ho and na) else "NOT-SUM"
+                        if not (hm and ho and na):
+                            R.viol(key + ":component%d" % i, lc.where(d[0]), "component %d of the hint computed by %s for %s is not the sum of the main-side and old-side hints" % (i, lc.path, adt))
+            if found:
+                return res
+        R.viol(key + ":shape", b.where(Loc(0, 0)), "size_hint of %s consults both sides but the result is not visibly their component-wise sum (unproven)" % adt)
+        return {}
     # delegating form: self.iter().size_hint() with iter() building a by-ref composite from both sides
     deleg = [c for c in calls if c.method == "size_hint" and c.local_callee() is not None]
     if deleg:
         lc = deleg[0].local_callee()
-        src = b.source_def(deleg[0].args[0], through_casts=True)
         p = deleg[0].arg_path(0)
         mk = None
         if p is not None:
@@ -430,48 +494,31 @@ def _check_size_hint(ctx, R, adt, b, key):
     return {}
 
 
+def _old_field_edges(ctx, b):
+    """edges deciding whether the composite's old side is present (S) or absent (N)"""
+    from rules_typestate import option_test_edges
+
+    def is_old_field(p):
+        toks = [tk for tk, _ in ctx.roles.classify(p)]
+        return toks == ["IT_OLD"] and not [e for e in p.elems if e[0] == "downcast"]
+    return option_test_edges(ctx, b, is_old_field, ignore_debug=False)
+
+
 def _check_owning_next(ctx, R, adt, b, key):
-    """owning iterators: a return of the main side's next() result happens only after the old side was found absent / exhausted"""
+    """owning iterators: the main side is polled only after the old side was found absent or exhausted"""
+    from rules_typestate import option_test_edges, N as N_, S as S_
     calls = ctx.calls(b)
-    main_next = [c for c in calls if c.method == "next" and ctx.role(b, c.arg_path(0)) == "IT_MAIN"]
-    old_next = [c for c in calls if c.method == "next" and ctx.role(b, c.arg_path(0)) == "IT_OLD"]
+    main_next = [c for c in calls if c.method == "next" and _side_of_receiver(ctx, b, c) == "IT_MAIN" and not b.is_cleanup(c.loc.bb)]
+    old_next = [c for c in calls if c.method == "next" and _side_of_receiver(ctx, b, c) == "IT_OLD" and not b.is_cleanup(c.loc.bb)]
     if not main_next or not old_next:
         R.viol(key + ":next-sides", b.where(Loc(0, 0)), "next() of %s does not poll both sides" % adt)
         return {}
-    # edges on which the old side is known absent: discriminant(self.old) != Some
-    absent_edges = set()
-    for bb in b.reachable():
-        t = b.term(bb)
-        if t["k"] != "switch":
-            continue
-        d = b.source_def(t["discr"])
-        if d is None or d[1] != "assign" or d[2]["rv"]["k"] != "discr":
-            continue
-        p = b.expand(d[2]["rv"]["place"])
-        toks = [tk for tk, _ in ctx.roles.classify(p)]
-        if toks == ["IT_OLD"] and not [e for e in p.elems if e[0] == "downcast"]:
-            for s_ in b.succs(bb):
-                if not any(v == 1 and tb == s_ for v, tb in t["targets"]):
-                    absent_edges.add((bb, s_))
-    # exhausted edges: switch on discriminant of old.next() result, non-Some edge
-    exhausted = set()
+    ok_edges = {e for e, v in _old_field_edges(ctx, b).items() if v == N_}
     for c in old_next:
-        for bb in b.reachable():
-            t = b.term(bb)
-            if t["k"] != "switch":
-                continue
-            d = b.source_def(t["discr"])
-            if d is None or d[1] != "assign" or d[2]["rv"]["k"] != "discr":
-                continue
-            p = b.expand(d[2]["rv"]["place"])
-            if p.root == c.dest["local"] and not p.fields():
-                for s_ in b.succs(bb):
-                    if not any(v == 1 and tb == s_ for v, tb in t["targets"]):
-                        exhausted.add((bb, s_))
-    # every path entry -> main.next() must cross an absent or exhausted edge
-    ok_edges = absent_edges | exhausted
+        dl = c.dest["local"]
+        res_edges = option_test_edges(ctx, b, lambda p, dl=dl: p.root == dl and not p.fields(), ignore_debug=False)
+        ok_edges |= {e for e, v in res_edges.items() if v == N_}
     for c in main_next:
-        # search path from entry to c.bb avoiding ok_edges
         seen = set()
         st = [(0, [0])]
         w = None
@@ -490,34 +537,54 @@ def _check_owning_next(ctx, R, adt, b, key):
         if w is not None:
             R.viol(key + ":main-before-old", c.where(), "the main side is polled on a path (%s) where the old side was neither absent nor exhausted: "
                    "remaining old-table elements would be skipped or the two sides interleaved with a stale length" % " -> ".join("bb%d" % x for x in w))
-    # after exhaustion the old side is dropped (take) so that the iterator is fused / its table freed
     took = [c for c in calls if c.name in (OPT + "take",) and ctx.role(b, c.arg_path(0)) == "IT_OLD"]
     return {"old_polled_first": True, "old_side_dropped_when_exhausted": bool(took)}
 
 
 def _check_byref_next(ctx, R, adt, b, key):
-    """by-reference composite: the old side is polled only when the main side returned None (or_else closure of the main result)"""
+    """by-reference composite: the old side is polled only when the main side returned None, and what is returned then comes from the old side"""
+    from rules_colour import path_role
+    from rules_typestate import option_test_edges, N as N_
     calls = ctx.calls(b)
-    main_next = [c for c in calls if c.method == "next" and ctx.role(b, c.arg_path(0)) == "IT_MAIN"]
+    main_next = [c for c in calls if c.method == "next" and _side_of_receiver(ctx, b, c) == "IT_MAIN" and not b.is_cleanup(c.loc.bb)]
     if not main_next:
         R.viol(key + ":main-next", b.where(Loc(0, 0)), "by-reference composite next() does not poll the main side in its own body (unproven shape)")
         return {}
-    # the returned value must derive from main.next()'s result through a call that also receives a closure polling the old side
+    M = main_next[0]
     res = {"shape": None}
+    old_here = [c for c in calls if c.method == "next" and _side_of_receiver(ctx, b, c) == "IT_OLD" and not b.is_cleanup(c.loc.bb)]
+    if old_here:
+        # explicit control flow: every path to the old poll crosses the None edge of main's result
+        dl = M.dest["local"]
+        none_edges = {e for e, v in option_test_edges(ctx, b, lambda p: p.root == dl and not p.fields(), ignore_debug=False).items() if v == N_}
+        for O in old_here:
+            seen = set()
+            st = [(0, [0])]
+            w = None
+            while st:
+                x, path = st.pop()
+                if x in seen:
+                    continue
+                seen.add(x)
+                if x == O.loc.bb:
+                    w = path
+                    break
+                for s_ in b.succs(x):
+                    if (x, s_) in none_edges:
+                        continue
+                    st.append((s_, path + [s_]))
+            if w is not None:
+                R.viol(key + ":old-before-main", O.where(), "the old side is polled on a path (%s) where the main side has not returned None" % " -> ".join("bb%d" % x for x in w))
+        res["shape"] = "explicit: old side polled on main's None edge"
+        return res
     for rb in b.return_blocks():
         ret_op = {"k": "copy", "place": {"local": 0, "proj": [], "ty": b.locals[0]["ty"]}}
         chain = slice_calls_deep(ctx, b, Loc(rb, len(b.stmts(rb))), [ret_op])
-        has_main = any(c.loc == main_next[0].loc and c.body is b for c in chain)
-        from rules_colour import path_role
+        has_main = any(c.loc == M.loc and c.body is b for c in chain)
         old_polls = [c for c in chain if c.method == "next" and c.body is not b and path_role(ctx, c.body, c.arg_path(0)) == OLD]
-        old_polls += [c for c in chain if c.method == "next" and c.body is b and ctx.role(b, c.arg_path(0)) == "IT_OLD"]
         comb = [c for c in chain if c.body is b and c.name in (OPT + "or_else", OPT + "or") and c.closure_args()]
         if has_main and old_polls and comb:
             res["shape"] = "main.next() … or_else(|| old.next() …)"
-        elif has_main and old_polls:
-            # explicit control flow form: old polled only on the None edge of main's result — accept if the old poll is not in the body's
-            # straight-line before main
-            res["shape"] = "explicit"
         else:
             R.viol(key + ":fallback", b.where(Loc(rb, 0)), "the value returned by next() does not combine main.next() with a fallback that polls the old side "
                    "(main: %s, old polls: %d)" % (has_main, len(old_polls)))
